@@ -298,6 +298,25 @@ def convex_sum_call():
                                 [post("value-of-a-summed-atom-is-the-sum", lambda ns, res: (np.size(res) == 1 and views.all_eq(np.asarray(res, dtype=object).reshape(-1)[:1], [want(ns)])))],
                                 mode="D", label=f"sum-of-atom,xtype={xt}")
         out += obs
+    # a 2-D argument summed over one axis: one value per column / per row
+    for axis in (0, 1):
+        def setup2(c):
+            m, x, y, X = new_ro(mat=True)
+            model = m.rc_model
+            cv = 2.0 * rsome.exp(X - 1.0).sum(axis=axis) + y
+            xbar = valuation(c, model, "sol")
+            model.solution = lp.Solution("oracle", 0.0, xbar, 0, 0.0)
+            return {"cv": cv, "xbar": xbar, "X": X, "y": y}
+
+        def want2(ns, axis=axis):
+            V = [[ns["xbar"][ns["X"].first + 2 * i + j] - 1.0 for j in range(2)] for i in range(2)]
+            el = atoms.base("X", np.array(V, dtype=object), None)
+            tot = np.asarray(el, dtype=object).sum(axis=axis)
+            return [2.0 * t + ns["xbar"][ns["y"].first] for t in tot]
+        obs, _ = check_function("rsome.lp:Convex.__call__", setup2, lambda ns: ns["cv"](),
+                                [post("value-of-an-atom-summed-over-an-axis", lambda ns, res: (np.shape(res) == (2,) and views.all_eq(np.asarray(res, dtype=object).reshape(-1), want2(ns))))],
+                                mode="D", label=f"sum-of-atom over axis {axis}, 2x2 argument, scaled and offset")
+        out += obs
     return out
 
 
